@@ -35,21 +35,27 @@ EXTENDS Integers, Sequences, FiniteSets, TLC, Json
 
 CONSTANTS
   Mode,        \* "dec" | "gen" | "enc"
-  MaxFrames,   \* number of frames per sequence (dec: upper bound, gen: exact length emitted)
-  Limit,       \* largest accepted frame payload (implementation: 10485760; small in "dec")
-  Fins, Rsvs, Ops, Masks,   \* per-frame alphabets (sets of ints)
-  Lens,        \* set of <<lenform, len>>, lenform in {7, 16, 64}
-  His,         \* set of indices of the upper 4 length bytes for lenform 64 (0 = zero)
+  Fams,        \* dec/gen: sequence of frame-alphabet families, one is chosen in Init.  Each is a record
+               \*   [n     number of frames per sequence (dec: upper bound, gen: exact length emitted),
+               \*    lim   largest accepted frame payload (implementation: 10485760; small in "dec"),
+               \*    fins, rsvs, ops, masks   per-frame alphabets (sets of ints),
+               \*    lens  set of <<lenform, len>>, lenform in {7, 16, 64},
+               \*    his   set of indices of the upper 4 length bytes for lenform 64 (0 = zero),
+               \*    fixed if non-empty, the one sequence to emit: <<fin,rsv,op,mk,lf,len,hi>>* ]
   Avoid,       \* subset of {"K1", "K3"}: exclude the triggers of these open known findings (see KnownTrigger)
-  Fixed,       \* gen: if non-empty, the one sequence to emit: <<fin,rsv,op,mk,lf,len,hi>>*
   KAT,         \* enc: handshake known answers << <<key, accept>>, ... >>
   EncLens,     \* enc: payload lengths for send actions
   Codes,       \* enc: close status codes
   D,           \* enc: bound on Len(hist)
   Pols         \* dec: indices into PolSeq of the policies to explore
 
-VARIABLES seq, phase, pos, dec, pol, hist, wire
-vars == <<seq, phase, pos, dec, pol, hist, wire>>
+VARIABLES seq, phase, pos, dec, pol, hist, wire, fam
+vars == <<seq, phase, pos, dec, pol, hist, wire, fam>>
+
+F == Fams[fam]
+Limit == F.lim
+MaxFrames == F.n
+Fixed == F.fixed
 
 ----------------------------------------------------------------------------
 (* bytes *)
@@ -255,53 +261,61 @@ FrameAt(i) ==
   IF Fixed # <<>>
   THEN IF i > Len(Fixed) THEN {} ELSE {MkFrame(Fixed[i][1], Fixed[i][2], Fixed[i][3], Fixed[i][4], Fixed[i][5], Fixed[i][6], Fixed[i][7], i)}
   ELSE UNION {{MkFrame(fin, rsv, op, mk, L[1], L[2], hi, i) :
-                 fin \in Fins, rsv \in Rsvs, op \in Ops, mk \in Masks,
-                 hi \in {x \in His : x = 0 \/ L[1] = 64}} : L \in Lens}
+                 fin \in F.fins, rsv \in F.rsvs, op \in F.ops, mk \in F.masks,
+                 hi \in {x \in F.his : x = 0 \/ L[1] = 64}} : L \in F.lens}
 
 Init ==
   /\ seq = <<>> /\ phase = (IF Mode = "enc" THEN "enc" ELSE "build") /\ pos = 0 /\ dec = InitDec
   /\ pol \in (IF Mode = "dec" THEN {PolSeq[j] : j \in Pols} ELSE {Lenient})
   /\ hist = <<>> /\ wire = <<>>
+  /\ fam \in 1..Len(Fams)
 
 AddFrame(f) ==
   /\ phase = "build" /\ Len(seq) < MaxFrames
-  /\ ~KnownTrigger(Append(seq, f), Avoid)
+  /\ (Fixed = <<>> => ~KnownTrigger(Append(seq, f), Avoid))
   /\ seq' = Append(seq, f)
-  /\ UNCHANGED <<phase, pos, dec, pol, hist, wire>>
+  /\ UNCHANGED <<phase, pos, dec, pol, hist, wire, fam>>
+
+(* gen: the sequence is complete (a separate step so that simulation traces reach their depth) *)
+Done ==
+  /\ Mode = "gen" /\ phase = "build" /\ Len(seq) = MaxFrames
+  /\ phase' = "done"
+  /\ UNCHANGED <<seq, pos, dec, pol, hist, wire, fam>>
+Idle == phase = "done" /\ UNCHANGED vars
 
 Start ==
   /\ Mode = "dec" /\ phase = "build" /\ seq # <<>>
   /\ phase' = "feed" /\ wire' = WireOf(seq)
-  /\ UNCHANGED <<seq, pos, dec, pol, hist>>
+  /\ UNCHANGED <<seq, pos, dec, pol, hist, fam>>
 
 FeedChunk(k) ==
   /\ phase = "feed"
   /\ pos + k <= Len(wire)
   /\ dec' = Feed(dec, SubSeq(wire, pos + 1, pos + k), pol)
   /\ pos' = pos + k
-  /\ UNCHANGED <<seq, phase, pol, hist, wire>>
+  /\ UNCHANGED <<seq, phase, pol, hist, wire, fam>>
 
 (* enc mode: the server-side API *)
 EClosed == hist # <<>> /\ hist[Len(hist)].a = "close"
 EOpen(i) ==
   /\ phase = "enc" /\ hist = <<>>
   /\ hist' = <<[a |-> "open", key |-> KAT[i][1], o |-> [status |-> 101, accept |-> KAT[i][2]]]>>
-  /\ UNCHANGED <<seq, phase, pos, dec, pol, wire>>
+  /\ UNCHANGED <<seq, phase, pos, dec, pol, wire, fam>>
 ESend(op, n) ==
   /\ phase = "enc" /\ hist # <<>> /\ ~EClosed /\ Len(hist) < D
   /\ LET p == EncPat(op, n, Len(hist))
      IN hist' = Append(hist, [a |-> (IF op = 1 THEN "text" ELSE "bin"), p |-> p,
                               o |-> [wb |-> [h |-> EncHdr(op, n), p |-> p], closed |-> 0]])
-  /\ UNCHANGED <<seq, phase, pos, dec, pol, wire>>
+  /\ UNCHANGED <<seq, phase, pos, dec, pol, wire, fam>>
 EClose(c) ==
   /\ phase = "enc" /\ hist # <<>> /\ ~EClosed /\ Len(hist) < D
   /\ hist' = Append(hist, [a |-> "close", code |-> c,
                            o |-> [wb |-> [h |-> CloseFrame(c), p |-> <<0, 0, 0, 1>>], closed |-> 1]])
-  /\ UNCHANGED <<seq, phase, pos, dec, pol, wire>>
+  /\ UNCHANGED <<seq, phase, pos, dec, pol, wire, fam>>
 
 Next ==
   \/ (Mode # "enc" /\ \E f \in FrameAt(Len(seq) + 1) : AddFrame(f))
-  \/ Start
+  \/ Start \/ Done \/ Idle
   \/ \E k \in 1..64 : FeedChunk(k)
   \/ (Mode = "enc" /\ \E i \in 1..Len(KAT) : EOpen(i))
   \/ (Mode = "enc" /\ \E op \in {1, 2}, n \in EncLens : ESend(op, n))
@@ -312,7 +326,7 @@ Spec == Init /\ [][Next]_vars
 ----------------------------------------------------------------------------
 (* Properties of the reference itself *)
 TypeOK ==
-  /\ phase \in {"build", "feed", "enc"}
+  /\ phase \in {"build", "feed", "enc", "done"}
   /\ pos \in 0..4096
   /\ dec.open \in {0, 1, 2}
   /\ (dec.closed => dec.open = 0 /\ dec.acc = <<>> /\ dec.buf = <<>>)
@@ -348,11 +362,11 @@ DedupFrom(s, acc) ==
   ELSE DedupFrom(Tail(s), (IF \E i \in 1..Len(acc) : acc[i] = Head(s) THEN acc ELSE Append(acc, Head(s))))
 GenRec == [fr |-> [i \in 1..Len(seq) |-> FrJson(seq[i])],
            exp |-> DedupFrom([j \in 1..8 |-> ExpJson(DecTok(seq, PolSeq[j]))], <<>>),
-           term |-> TermIdx(seq),
+           term |-> TermIdx(seq), fam |-> fam,
            known |-> (IF KnownTrigger(seq, {"K1", "K3"}) THEN 1 ELSE 0)]
 
 GenConstraint == Len(hist) <= D
 Emit ==
-  /\ ((Mode = "gen" /\ Len(seq) = MaxFrames) => PrintT(ToJson(GenRec)))
+  /\ (phase = "done" => PrintT(ToJson(GenRec)))
   /\ ((Mode = "enc" /\ hist # <<>> /\ (EClosed \/ Len(hist) = D)) => PrintT(ToJson(hist)))
 =============================================================================
